@@ -293,12 +293,21 @@ type ConcCase struct {
 	Openers int  `json:"openers"`
 	NoSeek  bool `json:"noseek"`
 	Settle  int  `json:"settle_us"`
+	// FailRead: the source fails its FailRead-th read (0 = never) while the other openers are queued behind the copy;
+	// Store: "rw" or "min" (a cache store without Remove: a failed copy cannot be cleaned up, only marked)
+	FailRead int    `json:"fail_read,omitempty"`
+	Store    string `json:"store,omitempty"`
 }
 
 func checkConcurrent(c ConcCase) (string, string) {
 	base := "C11 concurrent"
-	e := newEnv(Case{Size: c.Size, Name: "f", Store: "rw", NoSeek: c.NoSeek})
+	store := c.Store
+	if store == "" {
+		store = "rw"
+	}
+	e := newEnv(Case{Size: c.Size, Name: "f", Store: store, NoSeek: c.NoSeek})
 	e.src.gating = true
+	e.src.failRead = c.FailRead
 	type result struct {
 		data []byte
 		err  error
@@ -353,6 +362,9 @@ loop:
 		if r.err != nil {
 			continue
 		}
+		if r.rerr != nil && c.FailRead > 0 {
+			continue // the injected failure surfaced in the caller's own reads: reported, not served silently
+		}
 		if r.rerr != nil || !bytes.Equal(r.data, e.want) {
 			return base + ":partial", fmt.Sprintf("opener %d of %d got %d of %d bytes (%v)", i, c.Openers, len(r.data), len(e.want), r.rerr)
 		}
@@ -392,6 +404,12 @@ func TestConcurrent(t *testing.T) {
 	vf.Check(t, "concurrent", func(rt *rapid.T, rec *vf.Rec) {
 		c := ConcCase{Size: rapid.SampledFrom([]int{1, 512, 513, 1600, 5000}).Draw(rt, "size"), Openers: rapid.IntRange(2, 4).Draw(rt, "openers"),
 			NoSeek: rapid.Bool().Draw(rt, "noseek"), Settle: rapid.IntRange(0, 400).Draw(rt, "settle")}
+		if rapid.IntRange(0, 2).Draw(rt, "withfault") == 0 {
+			// a failing copy with other openers queued behind it
+			c.FailRead = rapid.IntRange(1, 1+c.Size/512).Draw(rt, "failread")
+			c.Store = rapid.SampledFrom([]string{"rw", "min", "min"}).Draw(rt, "store")
+			rec.Class("concurrent-with-fault")
+		}
 		rec.Step(c)
 		rec.NonTrivial()
 		if sig, msg := checkConcurrent(c); sig != "" {
